@@ -22,7 +22,8 @@ NUMS = ["NaN", "0", "-0", "1", "-1", "2", "-2", "3", "7", "0.5", "-0.5", "1.5", 
 STRS = ['""', '" "', '"0"', '"-0"', '"1"', '"-1"', '"1.5"', '" 12 "', '"0x10"', '"0b11"', '"0o17"', '"1e3"',
         '"1e1000"', '"-1e1000"', '"Infinity"', '"-Infinity"', '"+5"', '"abc"', '"a"', '"b"', '"1a"', '"NaN"',
         '"true"', '"null"', '"undefined"', '"1_0"', '".5"', '"5."', '"\\n"', '"\\u0661"', '"12abc"', '"A"',
-        '"10"', '"9"', '"-"', '"0x"']
+        '"10"', '"9"', '"-"', '"0x"', '"9007199254740993"', '"-9007199254740993"', '"12345678901234567890"',
+        '"0000000000000000000000000000000000000000007"', '"1234567890123456"']
 OTHERS = ["true", "false", "null", "undefined"]
 GRID = NUMS + STRS + OTHERS
 
